@@ -4268,6 +4268,10 @@ class TLSConnection(TLSRecordLayer):
                 self._pre_client_hello_handshake_hash = \
                     self._handshake_hash.copy()
 
+                # the negotiated record size limit applies to protected
+                # records only, the second Client Hello is not one
+                recv_limit = self._recv_record_limit
+                self._recv_record_limit = 2**14
                 for result in self._getMsg(ContentType.handshake,
                                            HandshakeType.client_hello):
                     if result in (0, 1):
@@ -4275,6 +4279,7 @@ class TLSConnection(TLSRecordLayer):
                     else:
                         break
                 clientHello = result
+                self._recv_record_limit = recv_limit
 
                 # verify that the new key share is present
                 ext = clientHello.getExtension(ExtensionType.key_share)
